@@ -2,6 +2,7 @@ package e2
 
 import (
 	"bytes"
+	"errors"
 	"fmt"
 	"sort"
 	"time"
@@ -179,6 +180,8 @@ func hbStale(bc *core.BasicCluster, hb *pdpb.RegionHeartbeatRequest) (bool, stri
 	return false, ""
 }
 
+var errPDGone = errors.New("c06: PD process gone")
+
 func c06(rc *corepkg) { c06Body(rc, true) }
 
 // c06Body runs the heartbeat world; own=false: only the C07 monitor is active (C07's cluster mode).
@@ -204,23 +207,34 @@ func c06Body(rc *corepkg, own bool) {
 	} else if own && rc.Knob("slow_node", 2) == 1 {
 		// heartbeats still one at a time, but the node is slow now and then: simulated time passes inside a handler, so
 		// the background work (the region storage's periodic flush) runs interleaved with it
-		s.SetSchedKnobs(0.5, 0.3, 0.03, 4*time.Second)
+		s.SetSchedKnobs(0.5, 0.3, 0.03, 1500*time.Millisecond)
 	}
 	nHB := 30 + rc.Knob("heartbeats", 120)
 	pStale := rc.KnobF("p_stale", 0.05, 0.2, 0.5)
 	running := nStreams
+	pdGone := false
 	send := func(hb *pdpb.RegionHeartbeatRequest) error {
 		var err error
 		e := hb.GetRegion().GetRegionEpoch()
 		s.Event("hb send region=%d v%d c%d t%d leader=%d [%q,%q)", hb.GetRegion().GetId(), e.GetVersion(), e.GetConfVer(), hb.GetTerm(), hb.GetLeader().GetId(), hb.GetRegion().GetStartKey(), hb.GetRegion().GetEndKey())
-		w.onPD("region-heartbeat", func() { err = w.Cl.HandleRegionHeartbeat(core.RegionFromHeartbeat(hb)) })
+		finished := false
+		w.onPD("region-heartbeat", func() {
+			err = w.Cl.HandleRegionHeartbeat(core.RegionFromHeartbeat(hb))
+			finished = true
+		})
+		if !finished || !w.L.Up || w.L.Srv != w.Srv {
+			// the handler never ran to its end: the PD process died under it (a panic elsewhere in PD takes the whole
+			// process down; the supervisor restarts it) - nothing was answered, nothing can be concluded
+			pdGone = true
+			return errPDGone
+		}
 		s.Event("hb done region=%d v%d c%d -> %v", hb.GetRegion().GetId(), e.GetVersion(), e.GetConfVer(), err == nil)
 		return err
 	}
 	for k := 0; k < nStreams; k++ {
 		s.Spawn(-1, fmt.Sprintf("hb-stream-%d", k), func() {
 			defer func() { running-- }()
-			for i := 0; i < nHB && len(rc.Viol) == 0; i++ {
+			for i := 0; i < nHB && len(rc.Viol) == 0 && !pdGone; i++ {
 				if s.Choose(3, "hb.mutate") != 0 {
 					if ev := mutate(rc, w.M); ev != "" {
 						rc.Extra["model_events"]++
@@ -272,6 +286,10 @@ func c06Body(rc *corepkg, own bool) {
 					}
 				}
 				err := send(hb)
+				if pdGone {
+					rc.Note("the PD process went down during the run: stopped")
+					return
+				}
 				if stale {
 					if err == nil {
 						rc.Violate("c06.stale", "stale-heartbeat-accepted", "heartbeat of region %d (%v term %d) is %s but was answered without error", hb.GetRegion().GetId(), hb.GetRegion().GetRegionEpoch(), hb.GetTerm(), why)
